@@ -35,9 +35,33 @@ theorem fmtV_np (o : Orc) (x : V) : NP (fmtV o x) := by
   unfold fmtV
   split <;> first | exact np_ok _ | exact orcStr_np _ _ _
 
+theorem upperOf_np (o : Orc) (x : V) : NP (upperOf o x) := by
+  unfold upperOf
+  have := fmtV_np o x
+  split
+  · rename_i e he; exact np_of_eq he this
+  · split
+    · exact np_ok _
+    · exact orcStr_np _ _ _
+
+theorem lowerOf_np (o : Orc) (x : V) : NP (lowerOf o x) := by
+  unfold lowerOf
+  have := fmtV_np o x
+  split
+  · rename_i e he; exact np_of_eq he this
+  · split
+    · exact np_ok _
+    · exact orcStr_np _ _ _
+
+theorem fmtStr_np (o : Orc) (f : String) (x : V) : NP (fmtStr o f x) := by
+  unfold fmtStr
+  split
+  · exact np_ok _
+  · exact orcStr_np _ _ _
+
 macro "np_base" : tactic => `(tactic| first
   | exact np_ok _ | exact np_err _ (by decide) | exact orcVal_np _ _ _ | exact orcStr_np _ _ _
-  | exact fmtV_np _ _ | assumption)
+  | exact fmtV_np _ _ | exact upperOf_np _ _ | exact lowerOf_np _ _ | exact fmtStr_np _ _ _ | assumption)
 macro "np_step" : tactic => `(tactic| first
   | np_base | exact np_of_eq (by assumption) (by np_base))
 
@@ -204,7 +228,7 @@ theorem resolveString_np (o : Orc) (t : StrCfg) (v : V) : NP (resolveStringWith 
   split
   · split
     · exact np_err _ (by decide)
-    · exact orcStr_np _ _ _
+    · exact fmtStr_np _ _ _
   · split
     · exact np_err _ (by decide)
     · exact stringConvert_np _ _ _
